@@ -614,6 +614,17 @@ fn rewrite_case(ctx: &Ctx, ch: &mut Ch) -> Outcome {
         let unsolved = D::from_gram(ea).show().contains('_') || D::from_gram(tya).show().contains('_') || new_unannotated_def;
         let tag = |f: Failure| if unsolved { f.with_sig(SIG_UNSOLVED) } else { f };
         let Some((eb, tyb)) = b else {
+            // The recorded finding seen from its diagnostic: every error says that a type which
+            // still contains unsolved holes was expected to be a bare unsolved hole (the
+            // annotation hole of an un-annotated definition).
+            let by_message = pipe::with_front(&tb, |f| match f {
+                pipe::Front::TypeErr { errors, .. } => !errors.is_empty() && errors.iter().all(|e| e.ends_with(", but it was expected to have type `_`:") && e.trim_end_matches(", but it was expected to have type `_`:").split(|c: char| !(c.is_alphanumeric() || c == '_')).any(|w| w == "_")),
+                _ => false,
+            })
+            .unwrap_or(false);
+            if by_message && unannotated_defs_with_omissions(&rewritten) > 0 {
+                return Err(Failure::new(format!("the original is accepted (type `{tya}`) but the rewritten program is rejected"), input.clone()).with_sig(SIG_UNSOLVED));
+            }
             return Err(tag(Failure::new(format!("the original is accepted (type `{tya}`) but the rewritten program is rejected"), input.clone())));
         };
         // Types: judged by gram's own conversion (no reference semantics in this check).
